@@ -446,6 +446,12 @@ fn check_format() -> Option<Mismatch> {
 }
 
 fn check_auto(input: &[u8]) -> Option<Mismatch> {
+    match std::panic::catch_unwind(|| check_auto_inner(input)) {
+        Ok(m) => m,
+        Err(_) => Some(Mismatch { case: hex(input), expected: "the auto-detecting parser and the two parsers return".into(), actual: "PANIC in HeaderResult::parse / try_from".into() }),
+    }
+}
+fn check_auto_inner(input: &[u8]) -> Option<Mismatch> {
     let r2 = v2::Header::try_from(input);
     let r1 = v1::Header::try_from(input);
     let want: HeaderResult = if r2.is_err() && !r2.is_incomplete() { HeaderResult::V1(r1) } else { HeaderResult::V2(r2) };
@@ -568,7 +574,7 @@ fn check_auto_abs(input: &[u8]) -> Option<Mismatch> {
     let want = oracle_v2(input);
     let inc = matches!(&want, V2Out::Reject(t) if t.starts_with("Incomplete(") || t.starts_with("Partial("));
     if !inc { return None; }
-    let got = HeaderResult::parse(input);
+    let got = match std::panic::catch_unwind(|| HeaderResult::parse(input)) { Ok(g) => g, Err(_) => return Some(Mismatch { case: hex(input), expected: "auto-detect returns".into(), actual: "PANIC in HeaderResult::parse".into() }) };
     let ok = matches!(&got, HeaderResult::V2(Err(e)) if e.is_incomplete()) && got.is_incomplete();
     if ok { None } else { Some(Mismatch { case: hex(input), expected: "auto-detect: an incomplete V2 result (the buffer is still a possible v2 header)".into(), actual: format!("{:?}", got) }) }
 }
